@@ -12,6 +12,13 @@ KEEP_PURGE = KEEP0 + ['g_firing', 'id', 'deferred', 'msgId', 'retries', 'qos', '
 
 
 @spec
+def conn_deferred_owned(self: Ref['mqtt.client.pubsubs.MQTTProtocol']) -> bool:
+    """a connect() is in progress and its Deferred is owned by the CONNECT request (so it is none of the others)"""
+    return (isa(self.connReq, 'mqtt.pdu.CONNECT') and isa(self.connReq.deferred, 'Deferred')
+            and self.connReq.deferred.d_owner == self.connReq)
+
+
+@spec
 def failed_with(r: Ref['obj'], reason: Any) -> bool:
     """the Deferred of request r has fired, as a failure carrying `reason`"""
     return is_bool(r.deferred.d_fired) and r.deferred.d_fired and is_bool(r.deferred.d_ok) and not r.deferred.d_ok and r.deferred.d_val == reason
@@ -39,6 +46,8 @@ def _(self: Ref['mqtt.client.pubsubs.MQTTProtocol'], reason: Any):
     ensures(implies(old(alarms_set(self)), alarms_set(self)))
     ensures(forall(lambda k: contains(S(self), k) == old(contains(S(self), k)) and S(self)[k] == old(S(self)[k])))
     ensures(forall(lambda k: contains(U(self), k) == old(contains(U(self), k)) and U(self)[k] == old(U(self)[k])))
+    # the Deferred of a connect() in progress is not one of those
+    ensures(implies(old(conn_deferred_owned(self)), unchanged(self.connReq.deferred.d_fired)))
 
 
 @loop('mqtt.client.pubsubs.MQTTProtocol._purgeSession', 0)
@@ -60,6 +69,7 @@ def _():
     invariant(forall(lambda k: contains(S(self), k) == old(contains(S(self), k)) and S(self)[k] == old(S(self)[k])))
     invariant(forall(lambda k: contains(U(self), k) == old(contains(U(self), k)) and U(self)[k] == old(U(self)[k])))
     invariant(implies(old(alarms_set(self)), alarms_set(self)))
+    invariant(implies(old(conn_deferred_owned(self)), unchanged(self.connReq.deferred.d_fired)))
 
 
 @loop('mqtt.client.pubsubs.MQTTProtocol._purgeSession', 1)
@@ -85,3 +95,110 @@ def _():
     invariant(forall(lambda k: contains(S(self), k) == old(contains(S(self), k)) and S(self)[k] == old(S(self)[k])))
     invariant(forall(lambda k: contains(U(self), k) == old(contains(U(self), k)) and U(self)[k] == old(U(self)[k])))
     invariant(implies(old(alarms_set(self)), alarms_set(self)))
+    invariant(implies(old(conn_deferred_owned(self)), unchanged(self.connReq.deferred.d_fired)))
+
+
+# ---------------------------------------------------------------- resume of a persistent session
+@spec
+def resumed_pub(self: Ref['mqtt.client.pubsubs.MQTTProtocol'], r: Ref['mqtt.pdu.PUBLISH'], enc0: Bytes) -> bool:
+    """r was left behind by an earlier connection and has now been sent again: DUP set, same bytes otherwise,
+    one fresh timer"""
+    return (timer_for(self, r, fn('mqtt.client.pubsubs.MQTTProtocol._publishError')) and r.encoded == with_dup(enc0, True)
+            and r.dup == True)
+
+
+@spec
+def resumed_rel(self: Ref['mqtt.client.pubsubs.MQTTProtocol'], r: Ref['mqtt.pdu.PUBREL'], enc0: Bytes) -> bool:
+    return (timer_for(self, r, fn('mqtt.client.pubsubs.MQTTProtocol._pubrelError'))
+            and r.encoded == with_dup(enc0, self._version == v31))
+
+
+@contract('mqtt.client.pubsubs.MQTTProtocol._syncSession', props=['C12', 'C09', 'C08', 'C13'])
+def _(self: Ref['mqtt.client.pubsubs.MQTTProtocol']):
+    requires(is_obj(self.addr))
+    requires(isa(self._pingReq, 'mqtt.pdu.PINGREQ'))
+    requires(inv(self) and is_list_bytes(self.transport.tr_out) and is_none(self.g_firing))
+    modifies(all_but(KEEP_REFILL))
+    ensures(inv(self) and is_list_bytes(self.transport.tr_out))
+    ensures(forall(lambda k: implies(contains(W(self), k), not is_none(W(self)[k].alarm))))
+    ensures(forall(lambda k: implies(contains(R(self), k), not is_none(R(self)[k].alarm))))
+    # the windows keep their entries; what an earlier connection left behind is sent again, the rest is untouched
+    ensures(forall(lambda k: contains(W(self), k) == old(contains(W(self), k)) and W(self)[k] == old(W(self)[k])))
+    ensures(forall(lambda k: contains(R(self), k) == old(contains(R(self), k)) and R(self)[k] == old(R(self)[k])))
+    ensures(forall(lambda k: implies(contains(W(self), k) and old(is_none(W(self)[k].alarm)),
+                                     resumed_pub(self, W(self)[k], old(as_bytes(W(self)[k].encoded))))))
+    ensures(forall(lambda k: implies(contains(W(self), k) and not old(is_none(W(self)[k].alarm)),
+                                     W(self)[k].alarm == old(W(self)[k].alarm) and W(self)[k].encoded == old(W(self)[k].encoded))))
+    ensures(forall(lambda k: implies(contains(R(self), k) and old(is_none(R(self)[k].alarm)),
+                                     resumed_rel(self, R(self)[k], old(as_bytes(R(self)[k].encoded))))))
+    ensures(forall(lambda k: implies(contains(R(self), k) and not old(is_none(R(self)[k].alarm)),
+                                     R(self)[k].alarm == old(R(self)[k].alarm) and R(self)[k].encoded == old(R(self)[k].encoded))))
+    ensures(len(out(self)) >= len(old(out(self))))
+    ensures(unchanged(self._pingReq.alarm))
+    ensures(forall(lambda k: contains(S(self), k) == old(contains(S(self), k)) and S(self)[k] == old(S(self)[k])))
+    ensures(forall(lambda k: contains(U(self), k) == old(contains(U(self), k)) and U(self)[k] == old(U(self)[k])))
+    ensures(implies(old(forall(lambda k: implies(contains(S(self), k), not is_none(S(self)[k].alarm)))),
+                    forall(lambda k: implies(contains(S(self), k), not is_none(S(self)[k].alarm)))))
+    ensures(implies(old(forall(lambda k: implies(contains(U(self), k), not is_none(U(self)[k].alarm)))),
+                    forall(lambda k: implies(contains(U(self), k), not is_none(U(self)[k].alarm)))))
+
+
+@loop('mqtt.client.pubsubs.MQTTProtocol._syncSession', 0)
+def _():
+    invariant(is_obj(self.addr))
+    invariant(wf_proto(self) and distinct_containers(self) and is_list_bytes(self.transport.tr_out))
+    invariant(inv_W(self))
+    invariant(inv_R(self))
+    invariant(inv_S(self))
+    invariant(inv_U(self))
+    invariant(inv_X(self))
+    invariant(inv_Q(self))
+    invariant(forall(lambda k: contains(W(self), k) == old(contains(W(self), k)) and W(self)[k] == old(W(self)[k])))
+    invariant(forall(lambda k: contains(R(self), k) == old(contains(R(self), k)) and R(self)[k] == old(R(self)[k])))
+    invariant(forall(lambda k: contains(S(self), k) == old(contains(S(self), k)) and S(self)[k] == old(S(self)[k])))
+    invariant(forall(lambda k: contains(U(self), k) == old(contains(U(self), k)) and U(self)[k] == old(U(self)[k])))
+    invariant(forall(lambda k: implies(contains(W(self), k), W(self)[k].alarm == old(W(self)[k].alarm) and W(self)[k].encoded == old(W(self)[k].encoded)
+                                       and W(self)[k].dup == old(W(self)[k].dup))))
+    invariant(forall(lambda k: implies(contains(R(self), k) and pos_of(keys, k) < idx and old(is_none(R(self)[k].alarm)),
+                                       resumed_rel(self, R(self)[k], old(as_bytes(R(self)[k].encoded))))))
+    invariant(forall(lambda k: implies(contains(R(self), k) and (pos_of(keys, k) >= idx or not old(is_none(R(self)[k].alarm))),
+                                       R(self)[k].alarm == old(R(self)[k].alarm) and R(self)[k].encoded == old(R(self)[k].encoded))))
+    invariant(forall(lambda k: implies(contains(S(self), k), S(self)[k].alarm == old(S(self)[k].alarm))))
+    invariant(forall(lambda k: implies(contains(U(self), k), U(self)[k].alarm == old(U(self)[k].alarm))))
+    invariant(len(out(self)) >= len(old(out(self))))
+    invariant(unchanged(self._pingReq.alarm))
+    invariant(forall(lambda k: implies(contains(R(self), k) and pos_of(keys, k) < idx, not is_none(R(self)[k].alarm))))
+    hint_exit(forall(lambda k: implies(contains(R(self), k), pos_of(keys, k) < idx)))
+    hint_exit(forall(lambda k: implies(contains(R(self), k), not is_none(R(self)[k].alarm))))
+
+
+@loop('mqtt.client.pubsubs.MQTTProtocol._syncSession', 1)
+def _():
+    invariant(is_obj(self.addr))
+    invariant(wf_proto(self) and distinct_containers(self) and is_list_bytes(self.transport.tr_out))
+    invariant(inv_W(self))
+    invariant(inv_R(self))
+    invariant(inv_S(self))
+    invariant(inv_U(self))
+    invariant(inv_X(self))
+    invariant(inv_Q(self))
+    invariant(forall(lambda k: contains(W(self), k) == old(contains(W(self), k)) and W(self)[k] == old(W(self)[k])))
+    invariant(forall(lambda k: contains(R(self), k) == old(contains(R(self), k)) and R(self)[k] == old(R(self)[k])))
+    invariant(forall(lambda k: contains(S(self), k) == old(contains(S(self), k)) and S(self)[k] == old(S(self)[k])))
+    invariant(forall(lambda k: contains(U(self), k) == old(contains(U(self), k)) and U(self)[k] == old(U(self)[k])))
+    invariant(forall(lambda k: implies(contains(R(self), k) and old(is_none(R(self)[k].alarm)),
+                                       resumed_rel(self, R(self)[k], old(as_bytes(R(self)[k].encoded))))))
+    invariant(forall(lambda k: implies(contains(R(self), k) and not old(is_none(R(self)[k].alarm)),
+                                       R(self)[k].alarm == old(R(self)[k].alarm) and R(self)[k].encoded == old(R(self)[k].encoded))))
+    invariant(forall(lambda k: implies(contains(W(self), k) and pos_of(keys, k) < idx and old(is_none(W(self)[k].alarm)),
+                                       resumed_pub(self, W(self)[k], old(as_bytes(W(self)[k].encoded))))))
+    invariant(forall(lambda k: implies(contains(W(self), k) and (pos_of(keys, k) >= idx or not old(is_none(W(self)[k].alarm))),
+                                       W(self)[k].alarm == old(W(self)[k].alarm) and W(self)[k].encoded == old(W(self)[k].encoded))))
+    invariant(forall(lambda k: implies(contains(S(self), k), S(self)[k].alarm == old(S(self)[k].alarm))))
+    invariant(forall(lambda k: implies(contains(U(self), k), U(self)[k].alarm == old(U(self)[k].alarm))))
+    invariant(len(out(self)) >= len(old(out(self))))
+    invariant(unchanged(self._pingReq.alarm))
+    invariant(forall(lambda k: implies(contains(R(self), k), not is_none(R(self)[k].alarm))))
+    invariant(forall(lambda k: implies(contains(W(self), k) and pos_of(keys, k) < idx, not is_none(W(self)[k].alarm))))
+    hint_exit(forall(lambda k: implies(contains(W(self), k), pos_of(keys, k) < idx)))
+    hint_exit(forall(lambda k: implies(contains(W(self), k), not is_none(W(self)[k].alarm))))
